@@ -137,9 +137,12 @@ class ProbeSource(Observable):
     nonconf=True: ignores dispose (keeps emitting) -- timelines may also contain notifications
     after the terminal one."""
 
-    def __init__(self, lab: Lab, name: str, msgs: list, kind: str, nonconf: bool = False) -> None:
+    def __init__(self, lab: Lab, name: str, msgs: list, kind: str, nonconf: bool = False, alt_msgs: list | None = None) -> None:
+        """alt_msgs (cold/sync only): timelines for the 2nd, 3rd ... subscription (a source that yields different
+        data per subscription, like defer over changing state)"""
         super().__init__()
         self.lab, self.name, self.msgs, self.kind, self.nonconf = lab, name, list(msgs), kind, nonconf
+        self.alt_msgs = alt_msgs
         self.nsub = 0
         self.live: dict[int, Any] = {}
         lab.sources.append(self)
@@ -181,14 +184,17 @@ class ProbeSource(Observable):
                     self.live.pop(sid, None)
                 lab.add("unsub", self.name, sid)
 
+        msgs = self.msgs
+        if self.alt_msgs and sid >= 1 and self.kind != "hot":
+            msgs = self.alt_msgs[min(sid - 1, len(self.alt_msgs) - 1)]
         if self.kind == "cold":
-            for (t, k, v) in self.msgs:
+            for (t, k, v) in msgs:
                 def act(s: Any, st: Any, k: str = k, v: Any = v) -> None:
                     if not state["disposed"] or self.nonconf:
                         self._deliver(sid, observer, k, v)
                 lab.ts.schedule_relative(lab.rel(t), act)
         elif self.kind == "sync":
-            for (t, k, v) in self.msgs:
+            for (t, k, v) in msgs:
                 if state["disposed"] and not self.nonconf:
                     break
                 self._deliver(sid, observer, k, v)
